@@ -43,20 +43,20 @@ def scenarios(ctx):
          ["up", "send 30 %d 300" % B, "send 12", "cut", "send 6 2 500", "online", "send 20 %d 200" % B]),
         # spool on, traffic before the first connection (InRT -> queue), then the endpoint appears: unspooling + live traffic
         ("spool-before-first-connect", dict(),
-         ["run", "send 25 5 300", "backlog 10", "up", "send 30 %d 300" % B, "settle", "send 10"]),
+         ["run", "send 25 5 300", "send 30", "backlog 10", "up", "send 30 %d 300" % B, "settle", "send 10"]),
         # outage in the middle of traffic: redo (keepSafe + what is left in conn.In) goes to the spool in bulk, lines during
         # the outage go to InRT, recovery, unspooling while traffic goes on; twice
-        ("outage-recovery", dict(connbuf=16),
-         ["up", "send 20 %d 200" % B, "bg 120 4 400", "waithanded 25", "down", "waithanded 25", "up", "waithanded 30", "downnw",
-          "waithanded 15", "upnw", "join", "settle", "send 8"]),
+        ("outage-recovery", dict(connbuf=16, slow_us=1200),
+         ["up", "send 20 %d 200" % B, "slowwriter on", "bg 240 1 700", "waithanded 35", "down", "slowwriter off", "waithanded 25", "up",
+          "waithanded 30", "downnw", "waithanded 15", "upnw", "join", "settle", "send 8"]),
         # slow endpoint: the endpoint stops reading and the connection writer is slow (every socket write takes a while):
         # conn.In fills, lines are dropped and counted, the slow flags gate the unspooling
-        ("slow-endpoint", dict(connbuf=3, slow_us=1500, reconn_ms=60),
+        ("slow-endpoint", dict(connbuf=3, slow_us=1500, reconn_ms=100),
          ["run", "send 15", "backlog 8", "up", "slowwriter on", "send 60 10 100", "pause", "send 20 5 500", "resume", "slowwriter off",
           "send 20 4 2000", "settle", "send 10 2 500"]),
         # connections cut (listener stays) while lines are in flight, spool on
         ("cut-connections", dict(connbuf=6, iolines=3),
-         ["up", "bg 90 3 500", "waithanded 20", "cutnw", "waithanded 25", "cut", "join", "settle", "send 6"]),
+         ["up", "bg 160 1 1500", "waithanded 20", "cutnw", "waithanded 10", "online", "waithanded 25", "cut", "join", "settle", "send 6"]),
         # keepSafe rotation: the keep period is short; lines of the old generation, of the recent generation, and lines old
         # enough to have been discarded; then the connection is lost and everything kept comes back through redo
         ("keepsafe-rotation", dict(keep_ms=250, flush_ms=20),
@@ -70,7 +70,7 @@ def scenarios(ctx):
     for j in range(nrand):
         steps, up = [], rng.random() < 0.6
         steps.append("up" if up else "run")
-        steps.append("bg %d %d %d" % (rng.randint(120, 220), rng.choice([2, 4, 7]), rng.choice([200, 400, 800])))
+        steps.append("bg %d %d %d" % (rng.randint(120, 220), rng.choice([1, 1, 2]), rng.choice([1000, 2000, 3000])))
         for _ in range(rng.randint(2, 5)):
             steps.append("waithanded %d" % rng.randint(8, 35))
             x = rng.random()
@@ -86,7 +86,7 @@ def scenarios(ctx):
                 up = True
         steps += ["join"]
         scns.append(dict(base, name="random-%d" % j, steps=steps, spool=rng.random() < 0.75, connbuf=rng.choice([2, 5, 12]),
-                         iolines=rng.choice([1, 3, 6]), reconn_ms=rng.choice([80, 150])))
+                         iolines=rng.choice([1, 3, 6]), reconn_ms=rng.choice([100, 150])))
     for i, s in enumerate(scns):
         s["id"] = i + 1
         tot = 0
@@ -302,8 +302,66 @@ def split_scenarios(events):
     return by
 
 
+# deviation of Destination.tla (constant Mutant) -> what a recorded scenario must contain for the deviation to show
+DEVIATIONS = [
+    ("DropNoCount", lambda h, raw: h.get("send.drop", 0) > 0),            # a full conn.In drops without counting
+    ("BlockingSend", lambda h, raw: h.get("send.drop", 0) > 0),           # `conn.In <- buf` without default
+    ("DownDropNoCount", lambda h, raw: h.get("drop.noconn", 0) > 0),      # no connection, no spool: dropped without counting
+    ("RedoSkipDrain", lambda h, raw: h.get("redo.drain", 0) > 0),         # getRedo returns GetAll() without draining In
+    ("NoIngest", lambda h, raw: h.get("spool.bulk", 0) > 0),              # collectRedo does not ingest
+    ("DropSafeOld", lambda h, raw: any(e["ev"] == "redo.start" and e["old"] > 0 for e in raw)),   # GetAll forgets the old generation
+    ("SpoolDropNoCount", lambda h, raw: h.get("spool.drop", 0) > 0),      # a full InRT drops without counting
+    ("DialInLoop", lambda h, raw: h.get("relay.connUpdate", 0) > 0),      # the relay loop dials itself
+]
+
+
+def corruptions(raw, rng):
+    """binding self-tests: (name, corrupted copy of the raw log).  One hook event removed / one line id changed."""
+    out = []
+
+    def pick(pred):
+        c = [i for i, e in enumerate(raw) if pred(e)]
+        c = [i for i in c if len(raw) // 5 <= i <= 4 * len(raw) // 5] or c
+        return rng.choice(c) if c else None
+
+    for name, pred in (("remove-hd.recv", lambda e: e["ev"] == "hd.recv"),
+                       ("remove-spool.put", lambda e: e["ev"] == "spool.put"),
+                       ("remove-relay.loop", lambda e: e["ev"] == "relay.loop"),
+                       ("remove-hd.added", lambda e: e["ev"] == "hd.added")):
+        i = pick(pred)
+        if i is not None:
+            out.append((name, raw[:i] + raw[i + 1:]))
+    for name, pred in (("id-hd.written", lambda e: e["ev"] == "hd.written" and not e["err"]),
+                       ("id-spool.rt", lambda e: e["ev"] == "spool.rt"),
+                       ("id-redo-bulk", lambda e: e["ev"] == "spool.bulk")):
+        i = pick(pred)
+        if i is not None:
+            c = copy.deepcopy(raw)
+            c[i]["id"] += 1
+            out.append((name, c))
+    # the line the relay took from dest.In and its outcome (both hooks carry the id)
+    i = pick(lambda e: e["ev"] == "relay.in")
+    if i is not None:
+        c = copy.deepcopy(raw)
+        c[i]["id"] += 1
+        for f in c[i + 1:]:
+            if f["role"] == "relay":
+                if "id" in f:
+                    f["id"] += 1
+                break
+        out.append(("id-relay.in", c))
+    # the connection a line was written to
+    i = pick(lambda e: e["ev"] == "send.ok")
+    if i is not None and max(e.get("conn", 0) for e in raw) >= 2:
+        c = copy.deepcopy(raw)
+        c[i]["conn"] = 1 if c[i]["conn"] != 1 else 2
+        out.append(("conn-send.ok", c))
+    return out
+
+
 def run(ctx):
     q = ctx.quick()
+    rng = random.Random(ctx.seed * 31337 + 5)
     scns = scenarios(ctx)
     ctx.log("XDESTB scenarios: %d" % len(scns))
     events = run_driver(ctx, scns, timeout=ctx.pick(400, 1500))
@@ -320,23 +378,32 @@ def run(ctx):
             raise Machinery("dead driver: scenario %s has no init/final record" % s["name"])
         raw = [e for e in evs if e["seq"] > 0]
         streams, unknown = streams_of(raw)
-        jobs.append(dict(scn=s, raw=raw, streams=streams, unknown=unknown, final=fin[0], consts=consts_of(s, init[0]["mode"], streams, raw)))
+        jobs.append(dict(scn=s, raw=raw, streams=streams, unknown=unknown, final=fin[0], init=init[0]["mode"],
+                         consts=consts_of(s, init[0]["mode"], streams, raw)))
 
-    # TLC decides every scenario (one run per scenario: the buffer sizes are constants of the model)
-    for gi in range(len(jobs)):
-        ctx.specdir("specH%d" % gi)
+    # ---- 1. TLC decides every scenario (one run per scenario: the buffer sizes are constants of the model)
+    tasks = []          # (kind, name, job, streams, consts)
+    for j in jobs:
+        tasks.append(("scenario", j["scn"]["name"], j, j["streams"], j["consts"]))
 
-    def one(gi):
-        j = jobs[gi]
-        return validate(ctx, j["streams"], j["consts"], "hk%d" % gi, own_dir="specH%d" % gi, timeout=ctx.pick(600, 2400))
+    def run_tasks(tasks, first):
+        for gi in range(len(tasks)):
+            ctx.specdir("specH%d" % (first + gi))
 
-    with ThreadPoolExecutor(max_workers=ctx.pick(4, 5)) as pool:
-        results = list(pool.map(one, range(len(jobs))))
+        def one(gi):
+            kind, name, j, streams, consts = tasks[gi]
+            return validate(ctx, streams, consts, "hk%d" % (first + gi), own_dir="specH%d" % (first + gi), timeout=ctx.pick(600, 2400))
+
+        with ThreadPoolExecutor(max_workers=ctx.pick(4, 5)) as pool:
+            return list(pool.map(one, range(len(tasks))))
+
+    results = run_tasks(tasks, 0)
     accepted = 0
     for j, (ok, matched, pos, res) in zip(jobs, results):
         j["ok"], j["matched"] = ok, matched
         s = j["scn"]
-        ctx.log("scenario %-28s events=%d model-level=%d accepted=%s distinct=%d" % (s["name"], len(j["raw"]), n_events(j["streams"]), ok, res["distinct"]))
+        ctx.log("scenario %-28s hooks=%d model-level events=%d goroutines=%d accepted=%s distinct=%d" % (
+            s["name"], len(j["raw"]), n_events(j["streams"]), len(j["streams"]), ok, res["distinct"]))
         ctx.cov["states"] += res["distinct"]
         ctx.cov["transitions"] += res["generated"]
         if ok:
@@ -344,7 +411,88 @@ def run(ctx):
         else:
             ctx.note("model-drift Destination.tla (scenario %s): %s" % (s["name"], describe_reject(j["streams"], matched, pos, res)))
             ctx.cov["drift"] = True
+    good = [j for j in jobs if j["ok"]]
+
+    # ---- 2. non-vacuity: the recorded behaviour of the code is NOT a behaviour of the named deviations of the model
+    #         (the trace set tells the model from its deviations), and
+    #      3. binding self-tests: one hook event removed / one line id changed => rejected
+    tasks2 = []
+    devs = DEVIATIONS[:5] if q else DEVIATIONS
+    skipped = []
+    for dev, needs in DEVIATIONS:
+        cands = [j for j in good if needs(j["final"]["hooks"], j["raw"])]
+        if not cands:
+            skipped.append(dev)
+            continue
+        if (dev, needs) not in devs:
+            continue
+        j = min(cands, key=lambda j: len(j["raw"]))
+        tasks2.append(("deviation", dev, j, j["streams"], dict(j["consts"], Mutant=dev)))
+    spoolgood = [j for j in good if j["scn"]["spool"] and j["final"]["hooks"].get("spool.bulk", 0) > 0]
+    if spoolgood:
+        j = min(spoolgood, key=lambda j: len(j["raw"]))
+        cs = corruptions(j["raw"], rng)
+        if q:
+            cs = [c for c in cs if c[0] in ("remove-hd.recv", "remove-spool.put", "id-hd.written", "id-relay.in")]
+        for name, raw2 in cs:
+            st2, _ = streams_of(raw2)
+            tasks2.append(("selftest", name, j, st2, j["consts"]))
+    res2 = run_tasks(tasks2, len(tasks))
+    rejected_devs, selftests = {}, {}
+    for (kind, name, j, streams, consts), (ok, matched, pos, res) in zip(tasks2, res2):
+        if kind == "deviation":
+            if ok:
+                raise Machinery("deviation %s of Destination.tla explains the hook trace of scenario %s as well as the model does "
+                                "(vacuity of the hook-level binding)" % (name, j["scn"]["name"]))
+            rejected_devs[name] = "%s: %s/%d" % (j["scn"]["name"], matched, n_events(streams))
+        else:
+            if ok:
+                raise Machinery("binding self-test %s: the corrupted hook log of scenario %s is still accepted" % (name, j["scn"]["name"]))
+            selftests[name] = "%s: %s/%d" % (j["scn"]["name"], matched, n_events(streams))
+    ctx.log("deviations rejected: %s" % json.dumps(rejected_devs))
+    ctx.log("binding self-tests rejected: %s" % json.dumps(selftests))
+    if good:
+        if len(rejected_devs) < ctx.pick(3, 5):
+            raise Machinery("only %d deviations of the model could be confronted with the traces (%s not exercised): vacuity" % (len(rejected_devs), skipped))
+        if len(selftests) < ctx.pick(3, 6):
+            raise Machinery("binding self-tests did not run (%s)" % selftests)
+        ctx.cov["binding_selftests"] = "passed"
+    ctx.cov["deviations_rejected"] = rejected_devs
+    ctx.cov["selftests_rejected"] = selftests
+    if skipped:
+        ctx.cov["deviations_not_exercised"] = skipped
+
+    # ---- evidence
+    tot = {}
+    for j in jobs:
+        for k, v in j["final"]["hooks"].items():
+            tot[k] = tot.get(k, 0) + v
+    ctx.cov["hook_events"] = tot
+    ctx.cov["scenarios"] = {j["scn"]["name"]: dict(accepted=j["ok"], hooks=len(j["raw"]), events=n_events(j["streams"]), goroutines=len(j["streams"]),
+                                                   handed=j["final"]["handed"], conns=j["final"]["conns"]) for j in jobs}
     ctx.cov["evaluations"] = sum(n_events(j["streams"]) for j in jobs)
     ctx.cov["distinct_nontrivial"] = accepted
-    ctx.cov["rule"] = "scenarios whose complete hook log is accepted by DestinationHookTrace.tla as a behaviour of Destination.tla"
-    ctx.sample(dict(scenario=jobs[0]["scn"]["name"], steps=jobs[0]["scn"]["steps"], final=jobs[0]["final"]))
+    ctx.cov["traces_rejected"] = len(jobs) - accepted
+    need = ["relay.in", "send.ok", "send.drop", "spool.ok", "drop.noconn", "relay.unspool", "relay.dead", "redo.drain", "redo.getall",
+            "spool.bulk", "spool.rt", "spool.put", "hd.recv", "hd.flush", "conn.close", "relay.connUpdate", "relay.tick"]
+    missing = [k for k in need if tot.get(k, 0) == 0]
+    if missing:
+        raise Machinery("vacuous run: no hook event of kind %s was recorded" % missing)
+    ctx.cov["rule"] = ("evaluations = model-level events (hook events of the real destination, merged where one model action has several hooks) "
+                       "decided by TLC; distinct_nontrivial = scenarios whose complete hook log is accepted by DestinationHookTrace.tla as a "
+                       "behaviour of Destination.tla (per-goroutine streams merged by TLC under the interval order)")
+    j0 = jobs[2] if len(jobs) > 2 else jobs[0]
+    ctx.sample(dict(scenario=j0["scn"]["name"], steps=j0["scn"]["steps"], final={k: v for k, v in j0["final"].items() if k != "hooks"},
+                    accepted=j0["ok"]))
+    ctx.sample(dict(stream_heads=[dict(role=s["role"], k=s["k"], n=len(s["evs"]), first=s["evs"][:2]) for s in j0["streams"][:6]]))
+    ctx.assumptions += [
+        "an event took effect after the previous hook of its own goroutine returned and not later than its own hook (hooks are one-liners placed "
+        "right after the state change; spool.rt / spool.bulk fire between the two halves of the model's atomic step, the queue buffer is never full in the scenarios)",
+        "line length and io buffer are chosen so that the io buffer holds a whole number of lines (IOB); the kernel buffers are never the bottleneck (KB = number of lines): "
+        "a slow endpoint is produced by pausing the endpoint's reads and by delaying the connection writer in the hook",
+        "connbuf >= 1 (Destination.tla does not model the rendezvous of an unbuffered conn.In)",
+        "endpoint reads are not recorded: in the model a reading endpoint reads as soon as bytes have reached its socket (this never disables a step)",
+        "assumptions A1/A2 of Destination.tla (keep period > failure detection; one connector at a time): reconnect period >= 100 ms",
+    ]
+    ctx.cov["trusted_base"] = ["TLC", "harness/destb driver (records only; goroutine role from the call stack)", "kernel loopback TCP",
+                               "checks/xdestb.py streams_of (splits the log per goroutine, merges multi-hook steps, computes lo/hi)"]
